@@ -19,11 +19,13 @@ import subprocess
 import sys
 
 sys.path.insert(0, os.path.dirname(os.path.dirname(os.path.abspath(__file__))))
+import grsenv  # noqa: E402  (first: the Groestl stand-in hash must be in place before pycoin.symbols.* is imported; also in the worker)
 
 MANIFEST = {
     "text": "Lean theorems over executable models of encoding/sec.py, key/Key.py (constructor checks, sec/hash160/address/wif), "
             "ParseAPI.wif, bitcoinish.wif_for_blob and satoshi/der.py, for all inputs: WIF round trip on every network of the generated "
-            "table (both compression flags, 1- and 2-byte prefixes, prefix agreement by decide over the whole table) including the "
+            "table, the Groestlcoin family under its own checksum hash included (both compression flags, 1- and 2-byte prefixes, agreement of "
+            "prefix and checksum hash between wif_for_blob and parse_b58_hashed by decide over the whole table) including the "
             "existence of the key for every exponent in [1, n-1]; SEC round trip in both forms with compression flag, hash160 and "
             "address preserved (no side condition on secp256k1: no point with y = 0); an accepted SEC blob is the unique encoding of a "
             "curve point with coordinates below p; strict and non-strict prefix/length rules exactly as coded; constructor range and "
@@ -32,8 +34,9 @@ MANIFEST = {
             "exactly when the top bit is set and no other leading zero. Model tied to the code by differential correspondence on every "
             "run (both arithmetic configurations where the generator is multiplied); the driver's multiplication is proved equal to "
             "the model's.",
-    "note": "Networks of the Groestlcoin family need the absent groestlcoin_hash module and are skipped (their Base58Check hash is not "
-            "double SHA-256). libsecp256k1 is absent: that backend is never run. sec_to_public_pair is modelled for calls that pass a "
+    "note": "The Groestlcoin family (grs, tgrs, grsrt) runs and is modelled with the stand-in of translate/grs_stub.py in place of the absent "
+            "groestlcoin_hash module (which hash each code path of a network uses is probed by the translator; the theorems use only "
+            "that the checksum hash yields 32 bytes). libsecp256k1 is absent: that backend is never run. sec_to_public_pair is modelled for calls that pass a "
             "generator (every caller in pycoin does).",
     "technique": "Lean 4 proof over executable models + differential correspondence model vs implementation + implementation-side "
                  "oracles (round trips, independent SEC/DER reference, hashlib)",
@@ -41,9 +44,11 @@ MANIFEST = {
 RULE = ("ops key_verify (raw DER: real signatures and every malformation of them)/key_sign_pub/key_override/key_override_pub/key_public/is_sec/key_nohier/sec_enc/sec_dec/sec_dec_c/key_from_sec/key_ctor_d/key_ctor_pair/key_addr/wif_enc/wif_dec/der_enc/der_dec/der_int/der_len/der_rdlen/"
         "der_rmint/der_rmseq; boundary corpus (every SEC blob shape of length 0..70 x prefix 0..7 x x in {0,1,p-1,p,p+1,p+k,2^256-1}; DER "
         "sign-padding and length-form boundaries, single-byte corruptions, truncations, trailing bytes; exponents 0,1,n-1,n,n+1,2^256-1; "
-        "WIF on every network) + seeded random; distinct = distinct op line; trivial = SEC blob whose length is neither 33 nor 65")
+        "WIF on every network incl. grs/tgrs/grsrt, texts under the other checksum hash) + seeded random; distinct = distinct op line; trivial = SEC blob whose length is neither 33 nor 65")
 ASSUMPTIONS = [
-    "Groestlcoin-family networks (grs, grsrt, tgrs) are skipped: groestlcoin_hash is not installed",
+    "the optional groestlcoin_hash package is replaced (also where a real one is installed) by the stand-in of translate/grs_stub.py "
+    "(sha256 with a prefix) in harness, worker, translator and model; of the real Groestl hash the theorems assume only that it is a "
+    "function from byte strings to 32 bytes, like the stand-in",
     "libsecp256k1 is not installed; default (OpenSSL) and PYCOIN_NATIVE=none configurations are both run",
     "sec_to_public_pair is modelled with a generator argument (all callers pass one)",
     "a str is represented by its UTF-8 bytes; hash functions are the shared Lean models validated by C19",
@@ -70,25 +75,18 @@ def unhx(s: str) -> bytes:
 # ------------------------------------------------------------------ evaluation on pycoin (both processes)
 
 _NETS: dict = {}
-_GRS: list = []
 
 
 def _load_nets():
     if _NETS:
         return
     import pycoin.symbols
-    from pycoin.networks.ParseAPI import ParseAPI
-    from pycoin.encoding.b58 import b2a_hashed_base58
     devnull = open(os.devnull, "w")
     old = sys.stdout
     sys.stdout = devnull  # grs.py prints a notice at import
     try:
         for m in sorted(x.name for x in pkgutil.iter_modules(pycoin.symbols.__path__)):
-            n = importlib.import_module("pycoin.symbols." + m).network
-            if n.address.b2a is not b2a_hashed_base58 or type(n.parse).parse_b58_hashed is not ParseAPI.parse_b58_hashed:
-                _GRS.append(m)
-                continue
-            _NETS[m] = n
+            _NETS[m] = importlib.import_module("pycoin.symbols." + m).network
     finally:
         sys.stdout = old
         devnull.close()
@@ -334,7 +332,8 @@ def hash160(b: bytes) -> bytes:
 _B58 = "123456789ABCDEFGHJKLMNPQRSTUVWXYZabcdefghijkmnopqrstuvwxyz"
 
 
-def ref_b58check_decode(s: str):
+def ref_b58check_decode(s: str, kind: str = "sha256d"):
+    """payload of a Base58Check text under the checksum hash `kind` (own base58, hashlib)"""
     v = 0
     for ch in s:
         i = _B58.find(ch)
@@ -343,7 +342,7 @@ def ref_b58check_decode(s: str):
         v = v * 58 + i
     pad = len(s) - len(s.lstrip("1"))
     raw = b"\x00" * pad + (v.to_bytes((v.bit_length() + 7) // 8, "big") if v else b"")
-    if len(raw) < 4 or hashlib.sha256(hashlib.sha256(raw[:-4]).digest()).digest()[:4] != raw[-4:]:
+    if len(raw) < 4 or grsenv.HASHES[kind](raw[:-4])[:4] != raw[-4:]:
         return None
     return raw[:-4]
 
@@ -516,8 +515,8 @@ def oracle(op: str, out: str):
             net = nets()[a[1]]
             pfx = net.address._address_prefix
             if pfx is not None:
-                if f[6] in ("None",) or f[6].startswith("!") or ref_b58check_decode(unhx(f[6]).decode()) != pfx + hash160(blob):
-                    return "key.address() is not Base58Check(prefix + hash160)"
+                if f[6] in ("None",) or f[6].startswith("!") or ref_b58check_decode(unhx(f[6]).decode(), grsenv.hash_kind(a[1])) != pfx + hash160(blob):
+                    return "key.address() is not Base58Check(prefix + hash160) under the network's checksum hash"
         elif want is not None:
             return "a well-formed SEC blob was refused"
     if k == "key_ctor_d":
@@ -564,13 +563,19 @@ def oracle(op: str, out: str):
             if impl("wif_dec %s %s %s" % (a[1], a[2], out[3:])) != "ok %d %s" % (d, a[4]):
                 return "WIF round trip: parse.wif(key.wif()) != (exponent, compression flag)"
             net = nets()[a[2]]
-            raw = ref_b58check_decode(unhx(out[3:]).decode())
+            raw = ref_b58check_decode(unhx(out[3:]).decode(), grsenv.hash_kind(a[2]))
             want = net.parse._wif_prefix + d.to_bytes(32, "big") + (b"\x01" if a[4] == "1" else b"")
             if raw != want:
-                return "WIF text is not Base58Check(prefix + exponent + compression marker)"
+                return "WIF text is not Base58Check(prefix + exponent + compression marker) under the network's checksum hash"
         elif out != "err InvalidSecretExponentError":
             return "secret exponent outside [1, n-1] not refused with InvalidSecretExponentError"
     if k == "wif_dec" and out.startswith("ok ") and out not in ("ok none", "ok public"):
+        try:
+            kinds = grsenv.kind_of_text(unhx(a[3]).decode("utf8"))
+        except UnicodeDecodeError:
+            kinds = []
+        if grsenv.hash_kind(a[2]) not in kinds:
+            return "parse.wif accepted a text whose checksum is not the network's checksum hash (checksum of: %s)" % (kinds or "nothing")
         d = int(out.split(" ")[1])
         if not 1 <= d < N:
             return "parse.wif returned a key whose exponent is outside [1, n-1]"
@@ -742,8 +747,6 @@ def gen(ctx, emit):
     rng = ctx.rng
     netnames = list(nets())
     gen_keyops(ctx, emit, netnames)
-    if _GRS:
-        ctx.note("skipped (groestlcoin_hash module absent): " + ",".join(_GRS))
 
     # ---- SEC: every blob shape of length 0..70 x prefix 0..7 x boundary x
     k = rng.randrange(2, 2 ** 32 + 976)
@@ -841,9 +844,11 @@ def gen(ctx, emit):
         emit("key_ctor_d pure %d" % d)
 
     # ---- WIF on every network, both flags (2-byte prefixes: dcr, dcrt)
-    from pycoin.encoding.b58 import b2a_hashed_base58
+    def b2a_hashed_base58(payload, kind="sha256d"):
+        return grsenv.b58c_enc(kind, payload)          # independent encoder, either checksum hash
+
     d0 = 1 + rng.randrange(N - 1)
-    pure_nets = set(["btc", "dcr", "dcrt", "xtn"] + rng.sample(netnames, ctx.n(3, len(netnames))))
+    pure_nets = set(["btc", "dcr", "dcrt", "xtn", "grs", "tgrs"] + rng.sample(netnames, ctx.n(3, len(netnames))))
     for net in netnames:
         for c in "10":
             d = d0 if rng.random() < 0.7 else rng.choice((1, N - 1, 1 + rng.randrange(N - 1)))
@@ -854,22 +859,30 @@ def gen(ctx, emit):
         emit("key_addr ossl %s %d %s" % (net, d0, rng.choice("01")))
         emit("key_addr pure %s %d %s" % (net, rng.choice((1, d0)), rng.choice("01")))
     # malformed WIF payloads under a valid checksum
-    for net in ["btc", "dcr", "dcrt"] + rng.sample(netnames, ctx.n(3, 20)):
+    for net in ["btc", "dcr", "dcrt", "grs", "tgrs", "grsrt"] + rng.sample(netnames, ctx.n(3, 20)):
         n = nets()[net]
         pfx = n.parse._wif_prefix
+        hk = grsenv.hash_kind(net)
+        ok_ = "groestl" if hk == "sha256d" else "sha256d"
         d = 1 + rng.randrange(N - 1)
         e = d.to_bytes(32, "big")
         payloads = [e, e + b"\x01", e + b"\x00", e + b"\x02", e + b"\x07", e[:31], e[:31] + b"\x01", e + b"\x01\x01", e[:10],
                     b"", bytes(32), bytes(32) + b"\x01", N.to_bytes(32, "big"), N.to_bytes(32, "big") + b"\x01",
                     (N - 1).to_bytes(32, "big") + b"\x01", b"\xff" * 32, e + e[:8]]
         for pl in payloads:
-            emit("wif_dec ossl %s %s" % (net, hx(b2a_hashed_base58(pfx + pl).encode())))
+            emit("wif_dec ossl %s %s" % (net, hx(b2a_hashed_base58(pfx + pl, hk).encode())))
+        # a well-formed payload under the OTHER checksum hash (what a network of the other family writes), the same
+        # version byte: refused; and the mainnet / testnet prefixes of the Groestlcoin family on each other
+        for pl in (e, e + b"\x01"):
+            emit("wif_dec ossl %s %s" % (net, hx(b2a_hashed_base58(pfx + pl, ok_).encode())))
+            for o in ("grs", "tgrs", "btc", "xtn"):
+                emit("wif_dec ossl %s %s" % (net, hx(b2a_hashed_base58(nets()[o].parse._wif_prefix + pl, grsenv.hash_kind(o)).encode())))
         # right payload, another network's prefix / a truncated 2-byte prefix
         other = nets()[rng.choice(netnames)].parse._wif_prefix
-        emit("wif_dec ossl %s %s" % (net, hx(b2a_hashed_base58(other + e + b"\x01").encode())))
-        emit("wif_dec ossl %s %s" % (net, hx(b2a_hashed_base58(pfx[:1] + e + b"\x01").encode())))
-        emit("wif_dec ossl %s %s" % (net, hx(b2a_hashed_base58(pfx + pfx + e).encode())))
-        good = b2a_hashed_base58(pfx + e + b"\x01")
+        emit("wif_dec ossl %s %s" % (net, hx(b2a_hashed_base58(other + e + b"\x01", hk).encode())))
+        emit("wif_dec ossl %s %s" % (net, hx(b2a_hashed_base58(pfx[:1] + e + b"\x01", hk).encode())))
+        emit("wif_dec ossl %s %s" % (net, hx(b2a_hashed_base58(pfx + pfx + e, hk).encode())))
+        good = b2a_hashed_base58(pfx + e + b"\x01", hk)
         bad = good[:-1] + ("2" if good[-1] != "2" else "3")
         emit("wif_dec ossl %s %s" % (net, hx(bad.encode())))
         emit("wif_dec ossl %s %s" % (net, hx(b"not base58 0OIl")))
